@@ -2,14 +2,14 @@
 from hypothesis import strategies as st
 
 DELTAS = [0, 0, 0.125, 0.25, 0.5, 0.5, 1, 1, 1, 1.5, 2, 2.5, 3, 4.75]
-ASSETS = [1, 1, 1, 2, 2, 3, 9, None]
+ASSETS = [1, 1, 1, 2, 2, 3, 9, 0, 0, None]      # 0 is a legal asset id (falsy!)
 BUILTIN = list(range(2, 12))          # every EventType above TERMINATE
 FRACS = [-0.5, -0.1, 0.1, 0.5]
 WEIGHTS = [0.1, 0.5, 0.5, 0.5, 0.9, 0.25, 0.75]
 
 delta = st.sampled_from(DELTAS)
 asset = st.sampled_from(ASSETS)
-sched_asset = st.sampled_from([1, 1, 2, 2, 3, 9])
+sched_asset = st.sampled_from([1, 1, 2, 2, 3, 9, 0, 0])
 # a dense cluster of custom priorities that differ by less than one from each other, from a built-in one or from
 # TERMINATE (1): same-instant events then differ only in the fractional part of their priority
 DENSE = [4, 4.5, 4.9, 5, 5.1, 4.1, 1.5, 1.1, 2, 1.9]
